@@ -229,7 +229,7 @@ pub open spec fn is_marker(f: Frame, topic: Seq<char>, ctx: Option<Scru128Id>) -
 //@@ inner
 //@@ rewrite: store.iter_frames( ==> ! iter_frames_stub(&store,
 //@@ for_desugar: for frame in
-//@@ before?: { if let Some(TTL::Time(ttl)) = frame.ttl.as_ref()
+//@@ loop_spec: for frame in
     invariant
         0 <= consumed(&vx_it) <= hist_frames().len(), rx.bcast == old(rx).bcast,
         fi_rest(&vx_it) =~= hist_frames().subrange(consumed(&vx_it), hist_frames().len() as int),
@@ -242,7 +242,7 @@ pub open spec fn is_marker(f: Frame, topic: Seq<char>, ctx: Option<Scru128Id>) -
         !has_done(rx.log), hist_frames().len() < usize::MAX, sent_of(old(rx).log).len() <= sent_of(rx.log).len(),
     ensures fi_rest(&vx_it).len() == 0,
     decreases fi_rest(&vx_it).len(),
-//@@ before_stmt?: if let Some(TTL::Time(ttl)) = frame.ttl.as_ref()
+//@@ loop_top: for frame in
     broadcast use lemma_sent_push, lemma_gc_push, lemma_done_push;
     proof {
         let n = consumed(&vx_it);
@@ -409,14 +409,14 @@ pub fn sleep_stub(d: Duration) { unimplemented!() }
 //@@ strip: await
 //@@ rewrite: tokio::time::sleep( ==> sleep_stub(
 //@@ after_all: heartbeat_tx.send( ==> Tracked(rx),
-//@@ before?: { tokio::time::sleep(
+//@@ loop_spec: loop {
     invariant
         sent_of(old(rx).log).len() <= sent_of(rx.log).len(),
         // only xs.pulse markers (ephemeral, the subscriber's own context) are put on this read's own channel (C11)
         forall|i: int| sent_of(old(rx).log).len() <= i < sent_of(rx.log).len() ==> is_marker(#[trigger] sent_of(rx.log)[i], "xs.pulse"@, options.context_id), //# read.heartbeat.only_pulse_markers
         forall|i: int| 0 <= i < sent_of(old(rx).log).len() ==> #[trigger] sent_of(rx.log)[i] == sent_of(old(rx).log)[i],
         gc_of(rx.log) == gc_of(old(rx).log) && !has_done(rx.log),
-//@@ before_stmt?: let frame =
+//@@ loop_top: loop {
     broadcast use lemma_sent_push, lemma_gc_push, lemma_done_push;
 //@@ header
 #[verifier::exec_allows_no_decreases_clause]
